@@ -35,19 +35,26 @@ PROP = {
             "model, exact) and the pair question (compare both ways, equal hasher calls, both parses, Value::eq) judged "
             "by the monitor; keys: one case = 3..12 key texts pushed into the real queue; distinct = distinct op "
             "sequence (sha1)",
-    "level_text": "Proof (all inputs): Value::eq as modelled is an equivalence; the hash normal form respects it and "
-                  "separates unequal values; a text that is not valid Recon compares equal to exactly itself and every "
-                  "text compares equal to itself; the event-level comparator (incremental_compare with ValueValidator "
-                  "and its hand-written PartialEq) is symmetric on all pairs of event streams; witnesses (replayed on the "
-                  "real code) that 'equal ⇒ same hash' is false of recon_hash as it is. Correspondence: the real event "
-                  "stream (observed through a recording Recognizer), parse_recognize::<Value>, every Hasher call of "
-                  "recon_hash and compare_recon_values are reproduced exactly by the model on printer output, free "
-                  "layouts, grammar documents and damaged texts; the monitor judges compare_recon_values / recon_hash "
-                  "against the real parser + Value::eq on every pair, and the real MapOperationQueue on key sets.",
-    "level_note": "Labelled partial: that the comparator heuristic agrees with Value::eq on ALL pairs of valid texts "
-                  "(cmp_sound) is tied by differential testing only (statement kept open); floats are exact decimals, "
-                  "so texts with a float literal of more than 15 significant digits or a 3-digit exponent are outside "
-                  "the model (answered out-of-fragment by harness and model alike).",
+    "level_text": "Proof (all inputs): Value::eq as modelled is an equivalence and the hash normal form respects it "
+                  "(all values); a text compares equal to itself, and a text that is not valid Recon to nothing else "
+                  "(all strings); the event-level comparator (incremental_compare with ValueValidator and its "
+                  "hand-written PartialEq) is reflexive and symmetric on ALL pairs of event streams and never answers "
+                  "Some(false) on streams that agree event by event; on the canonical event stream of ANY value the "
+                  "validator is never Invalid, the materializer reads the value back, and canonical streams of equal "
+                  "values compare Some(true). Both halves of the property are FALSE of the code as it is, with "
+                  "witnesses proved on the model and replayed on the real functions: equal => same hash (C15-N1 -0.0, "
+                  "C15-N2 textual is_implicit_record) and equal => same value (C15-N3: {{1,2}} == {1,{2}}). "
+                  "Correspondence: the real event stream (observed through a recording Recognizer), "
+                  "parse_recognize::<Value>, every Hasher call of recon_hash and compare_recon_values are reproduced "
+                  "exactly by the model on printer output, free layouts, grammar documents, damaged texts and all "
+                  "pairs of a small scope; the monitor judges compare_recon_values / recon_hash against the real "
+                  "parser + Value::eq on every pair, and the real MapOperationQueue on key sets.",
+    "level_note": "Labelled partial: 'no false split on all valid texts' (cmp_complete) and 'equal printer outputs hash "
+                  "alike' are tied by differential testing + exhaustive small scope only (statements kept open); "
+                  "floats are exact decimals, so texts with a float literal of more than 15 significant digits or a "
+                  "3-digit exponent are outside the model (answered out-of-fragment by harness and model alike); the "
+                  "text -> events part of the model (nom automaton) is tied by differential testing, the theorems about "
+                  "texts go through it.",
     "trusted_base": COMMON_TRUST + [
         "modelled, not verified: nom 7 streaming/complete combinators, str::parse::<f64> / {:e} (floats as exact "
         "decimals on the stated fragment), base64 STANDARD, num-bigint (Hash: sign, u64 digits), std Hash for "
